@@ -16,7 +16,7 @@ LEVEL_TEXT = ("Every field of the three state replies and the login reply is gen
               "response dataclasses directly. Sampling; no proof for unseen values.")
 RULE = ("case = (reply kind, field values, noise salt, session); non-trivial = all multi-byte fields have pairwise different "
         "bytes (so endianness/offset slips are visible); distinct by the field tuple."
-        ' Also: sequences of 2..8 replies of different kinds decoded in one process (mixed), 2..6 queries on one connection with some replies cut short or answered 4 s .. 1 h late under the harness-owned loop clock (api-history: whatever response object comes back, also after a late reply, must be what the device encoded for that very query), host zones other than UTC, field values 0xF0FE/0xFEF0, non-ASCII remote ids of <= 8 bytes.')
+        ' Also: sequences of 2..8 replies of different kinds decoded in one process (mixed), 2..6 queries on one connection with some replies cut short or answered 4 s .. 1 h late under the harness-owned loop clock (api-history: whatever response object comes back, also after a late reply, must be what the device encoded for that very query), host zones other than UTC, field values 0xF0FE/0xFEF0, non-ASCII remote ids of <= 8 bytes; field-sweep: power (0..65535, on and off), the three time fields (0..86399), thermostat temperature (0..65535), target (0..255) and shutter position (0..255) walked through every value.')
 ASSUMPTIONS = [
     "reply layout of DESIGN appendix A.2, pinned by get_state_response / get_breeze_state / get_shutter_state_response / login captures",
     "amps = watts/220 within 0.05 and rendered to one decimal; temperature = tenths/10 within 1e-9",
@@ -286,12 +286,48 @@ def strat(kind, api):
     return build
 
 
+def body_sweep(rep, case):
+    """One numeric field walked through EVERY value of its range (the other fields fixed): a reply parser has no business
+    treating any single value specially, and the ranges are small enough to enumerate."""
+    from aioswitcher.api import messages
+    cls = {"state1": messages.SwitcherStateResponse, "shutter": messages.SwitcherShutterStateResponse,
+           "thermostat": messages.SwitcherThermostatStateResponse}
+    kind, field = case["reply"], case["field"]
+    base = dict(case["base"])
+    for v in range(case["lo"], case["hi"]):
+        f = dict(base)
+        f[field] = v
+        if v % 257 == 0:
+            rep.tick("field-sweep", key=(kind, field, v), nontrivial=True, sample={"reply": kind, "fields": f})
+        resp = cls[kind](encode(kind, f, 1 + v % 200))
+        judge(kind, f, {"reply": kind, "fields": f, "salt": 1 + v % 200}, resp, f"C08/{kind}/sweep-{field}")
+    rep.label(f"swept:{kind}.{field}", case["hi"] - case["lo"])
+
+
+def cases_sweep():
+    out = []
+    s1 = {"on": True, "power": 1500, "time_left": 600, "time_on": 3000, "auto_shutdown": 7200}
+    th = {"on": True, "mode": 4, "fan": 2, "swing": 1, "temp_tenths": 231, "target": 24, "remote_id": "ELEC7001"}
+    def chunks(kind, field, base, top, step):
+        for lo in range(0, top, step):
+            out.append({"reply": kind, "field": field, "base": base, "lo": lo, "hi": min(top, lo + step)})
+    chunks("state1", "power", s1, 65536, 8192)
+    chunks("state1", "power", dict(s1, on=False), 65536, 16384)
+    for fld in ("time_left", "time_on", "auto_shutdown"):
+        chunks("state1", fld, s1, 86400, 10800)
+    chunks("thermostat", "temp_tenths", th, 65536, 8192)
+    chunks("thermostat", "target", th, 256, 256)
+    chunks("shutter", "position", {"position": 0, "direction": "up"}, 256, 256)
+    return out
+
+
 def subchecks(tier):
     big = tier == "thorough"
     subs = [Sub(f"api/{k}", body_api, strategy=strat(k, True), n=20_000 if big else 2000, shards=8 if big else 2)
             for k in ("state1", "shutter", "thermostat")]
     subs.append(Sub("api-history", body_api_history, strategy=strat_api_history, n=30_000 if big else 700, shards=8 if big else 2))
     subs.append(Sub("mixed", body_mixed, strategy=strat_mixed, n=100_000 if big else 1500, shards=8 if big else 2))
+    subs.append(Sub("field-sweep", body_sweep, cases=cases_sweep, shards=8, exhaustive=True))
     subs += [Sub(f"direct/{k}", body_direct, strategy=strat(k, False), n=200_000 if big else 1500, shards=8 if big else 1)
              for k in ("state1", "shutter", "thermostat", "login")]
     return subs
